@@ -354,6 +354,17 @@ class Zone:
                         for u in self.terms:
                             if u[0] == "cparam" and self._add(t, u, 0):
                                 changed = True
+                if t[0] == "load" and t[2] in (("iter", "start"), ("iter", "end")) and t[3][0] == "def" and t not in self._ens_done:
+                    # std's Range<usize> iterator, the index source of a Drain (trusted, like RangeBounds): `next` hands out
+                    # the old start and advances it by one, `next_back` retreats the end by one and hands out the new end;
+                    # either does so only while start < end and otherwise leaves both alone
+                    self._ens_done.add(t)
+                    for (x, y, w) in _range_step_axioms(self.fn, t, self.atoms):
+                        for u in (x, y):
+                            if u not in self.idx:
+                                self._grow(u)
+                        if self._add(x, y, w):
+                            changed = True
                 if t[0] == "pcall" and t[1] == "<[T]>::len" and len(t[2]) == 1:
                     x = norm(t[2][0])
                     if isinstance(x, tuple) and x and x[0] == "field" and isinstance(x[1], tuple) and x[1][:2] in (("call", "CircularBuffer::as_slices"), ("call", "CircularBuffer::as_mut_slices")) and len(x[1]) == 4:
@@ -437,6 +448,64 @@ class Zone:
 
     def is_variant(self, e, v):
         return ("is", e, v) in self.atoms
+
+
+RANGE_NEXT = ("<Range<A> as Iterator>::next", "<Range<A> as DoubleEndedIterator>::next_back")
+
+
+def _range_step_axioms(fn, t, atoms):
+    """difference constraints (x - y <= w) relating a Drain's iter.start / iter.end after a call of std's
+    Range::next / next_back (the call that defined the memory version of load `t`) to their values before it and to
+    the index handed out"""
+    ver = t[3]
+    b = ver[1]
+    if not (isinstance(b, int) and 0 <= b < len(fn.blocks)):
+        return []
+    term = fn.term(b)
+    n = len(fn.blocks[b]["stmts"])
+    if term["k"] != "call" or ver[2] != n:
+        return []
+    R = fn.call_expr(b)
+    if not (isinstance(R, tuple) and R[0] == "call" and R[1] in RANGE_NEXT and len(R[2]) == 1):
+        return []
+    a = norm(R[2][0])
+    if not (isinstance(a, tuple) and a[0] == "ref" and isinstance(a[1], tuple) and a[1][0] == "place" and a[1][1] == t[1] and tuple(a[1][2]) == ("iter",)):
+        return []
+    pre = fn.version_at(b, n, ("M", "iter"))
+    S0, E0 = ("load", t[1], ("iter", "start"), pre), ("load", t[1], ("iter", "end"), pre)
+    S1, E1 = ("load", t[1], ("iter", "start"), ver), ("load", t[1], ("iter", "end"), ver)
+    some = ("is", R, 1) in atoms or ("isnot", R, 0) in atoms
+    none = ("is", R, 0) in atoms or ("isnot", R, 1) in atoms
+    P = ("field", ("as", R, "Some"), "0")
+    out = []
+
+    def eq(x, y, k=0):   # x == y + k
+        out.append((x, y, k))
+        out.append((y, x, -k))
+
+    if R[1].endswith("::next"):
+        eq(E1, E0)
+        out.append((S0, S1, 0))
+        out.append((S1, S0, 1))
+        if some:
+            eq(P, S0)
+            eq(S1, S0, 1)
+            out.append((S0, E0, -1))
+        if none:
+            eq(S1, S0)
+            out.append((E0, S0, 0))
+    else:
+        eq(S1, S0)
+        out.append((E1, E0, 0))
+        out.append((E0, E1, 1))
+        if some:
+            eq(P, E1)
+            eq(E0, E1, 1)
+            out.append((S0, E1, 0))
+        if none:
+            eq(E1, E0)
+            out.append((E0, S0, 0))
+    return out
 
 
 _DRAIN_FIELDS = {("range", "start"): 0, ("iter", "start"): 1, ("iter", "end"): 2, ("range", "end"): 3, ("buf_size",): 4}
